@@ -5,7 +5,7 @@ import vlib, uaconv, c08
 from vlib import Sym
 from uaconv import py2sx, canon_sx, isna
 
-JHOSTILE = ['"', "\\", "\n", "\t", "\r", "\x00", "\x1f", "\x7f", "é", "😀", "a", "b", " ", "/", "{", "}", "[", "]", ":", ","]
+JHOSTILE = ['"', "\\", "\n", "\t", "\r", "\x00", "\x1f", "\x7f", "é", "😀", "a", "b", " ", "/", "{", "}", "[", "]", ":", ",", "\u2126", "e\u0301"]
 def jtext(rng, n=6): return "".join(rng.choice(JHOSTILE) for _ in range(rng.randint(0, n)))
 
 VT = None
@@ -255,6 +255,10 @@ def check(ctx):
               T.UAVariant(T.UAUInt32(3)), T.UAVariant(T.UAFloat(1.5)), T.UAVariant(T.UAString("s")), T.UAVariant(T.UAGuid("12345678-9ABC-DEF0-1234-56789ABCDEF0")),
               T.UAVariant(T.UAByteString(b"ab")), T.UAVariant(T.UAXMLElement("<a/>")), T.UAVariant(T.UANodeId(1, "i", "5")), T.UAVariant(T.UALocalizedText("t", "en")),
               T.UAVariant(T.UADateTime(datetime.datetime(2020, 1, 2, 3, 4, 5, tzinfo=datetime.timezone.utc))),
+              # identifiers of every type that consist of digits only (what the identifier IS does not decide how it is written: its type does)
+              T.UANodeId(2, "s", "1001"), T.UANodeId(0, "s", "007"), T.UANodeId(1, "g", "42"), T.UANodeId(3, "b", "0"), T.UANodeId(1, "i", "1001"), T.UANodeId(0, "s", "-1"), T.UANodeId(1, "s", "1e3"),
+              T.UAVariant(T.UANodeId(2, "s", "1001")), T.UAExtensionObject(type_nodeid=T.UANodeId(2, "s", "77"), body=T.UAXMLElement("<a/>")),
+              T.UAListOf((T.UANodeId(2, "s", "12"), T.UANodeId(2, "i", "12")), "NodeId"),
               # date-times with an offset that is not a whole number of seconds (local mean solar time), with sub-second parts, near a day boundary
               T.UADateTime(datetime.datetime(2021, 6, 1, 12, 0, 0, 250000, tzinfo=datetime.timezone(datetime.timedelta(minutes=43, microseconds=528000)))),
               T.UADateTime(datetime.datetime(2021, 6, 1, 0, 0, 0, 1, tzinfo=datetime.timezone(datetime.timedelta(hours=5, seconds=17, microseconds=999999)))),
